@@ -283,72 +283,106 @@ def run(tier):
     if SCSV != 0x5600:
         why3 = "TLS_FALLBACK_SCSV is 0x%04x, RFC 7507 says 0x5600" % SCSV
     else:
-        for b in pch.blocks:
-            t = b.get("term")
-            if t is None or "c" not in t:
-                continue
-            c = strip(t["c"])
-            if not (c is not None and c.get("k") == "bin" and c["op"] == "<" and is_field(c["l"], "ssl", "peerHelloVersion")):
-                continue
-            scsv_fact = any(tr and t_.endswith("== %d)" % SCSV) for (t_, tr) in gfc.get(b["id"], ()))
-            if not scsv_fact:
-                continue
-            r = strip(c["r"])
-            def highest_of_supported(e):
-                e = strip(e)
-                if e is None or e.get("k") != "call" or not e.get("a"):
-                    return False
-                if e.get("fn") == "psVerGetHighestTls":
-                    return is_field(e["a"][0], "ssl", "supportedVersions")
-                if e.get("fn") == "psVerGetHighest":
-                    # the DTLS arm: highest of (supportedVersions & v_dtls_any), DTLS allowed
-                    a0 = strip(e["a"][0])
-                    return a0 is not None and a0.get("k") == "bin" and a0["op"] == "&" and \
-                        (is_field(a0["l"], "ssl", "supportedVersions") or is_field(a0["r"], "ssl", "supportedVersions")) and \
-                        any((strip(q) or {}).get("k") == "int" and strip(q)["v"] == prog.enums.get("v_dtls_any") for q in (a0["l"], a0["r"]))
-                return False
-            arg_ok = highest_of_supported(r)
-            if not arg_ok and r is not None and r.get("k") == "var" and r.get("sc") == "l":
-                # a local: every definition reaching the comparison is such a call
-                rd3 = cu.reaching_defs(pch)
-                idx3 = next((i_ for i_, l_, x_ in cu.block_exprs(b) if x_ is t["c"]), None)
-                ds3 = cu.defs_at(pch, rd3, b["id"], idx3, r.get("id"))
-                arg_ok = bool(ds3) and all(d[3] is not None and highest_of_supported(d[3]) for d in ds3)
-                dtls_arm = any(d[3] is not None and (strip(d[3]) or {}).get("fn") == "psVerGetHighest" for d in ds3)
-            else:
-                dtls_arm = False
-            if arg_ok and prog.by_name.get("dtlsChkReplayWindow") and not dtls_arm:
-                why3 = "the version compared under the SCSV test (line %s) has no DTLS arm: psVerGetHighestTls() skips the DTLS versions, so for " \
-                       "a DTLS ClientHello the comparison is against `undefined` and an unjustified fallback to DTLS 1.0 is never refused" % t["ln"]
-                continue
-            if not arg_ok:
-                why3 = "the version compared under the SCSV test (line %s) is %s, not psVerGetHighestTls(ssl->supportedVersions): " \
-                       "masked-out versions make a real fallback look justified" % (t["ln"], pp(r)[:70])
-                continue
-            bad = cu.edge_only_errors(pch, b, 0)
-            if bad is not None:
-                why3 = "the inappropriate-fallback branch (line %s) reaches the non-error return at line %s" % (t["ln"], bad)
-                continue
-            # the alert is set on that edge
-            sets = False
-            st = [b["succ"][0]["b"]]
-            seen = set()
-            while st:
-                x_ = st.pop()
-                if x_ in seen:
+        def scan3(fnx, gfx, need_fact):
+            nonlocal_ok = [False]
+            why = [None]
+            for b in fnx.blocks:
+                t = b.get("term")
+                if t is None or "c" not in t:
                     continue
-                seen.add(x_)
-                for i, ln, x in cu.block_exprs(pch.bmap[x_]):
-                    for n in walk(x):
-                        if n.get("k") == "bin" and n["op"] == "=" and is_field(n["l"], "ssl", "err") and \
-                                strip(n["r"]).get("k") == "int" and strip(n["r"])["v"] == ALERT:
-                            sets = True
-                if not any(el["x"].get("k") == "ret" for el in pch.bmap[x_]["el"]):
-                    st.extend(cu.succs(pch, x_))
-            if not sets:
-                why3 = "the fallback branch does not set SSL_ALERT_INAPPROPRIATE_FALLBACK"
-                continue
-            ok3 = True
+                c = strip(t["c"])
+                if not (c is not None and c.get("k") == "bin" and c["op"] == "<" and is_field(c["l"], "ssl", "peerHelloVersion")):
+                    continue
+                scsv_fact = any(tr and t_.endswith("== %d)" % SCSV) for (t_, tr) in gfx.get(b["id"], ()))
+                if need_fact and not scsv_fact:
+                    continue
+                r = strip(c["r"])
+                def highest_of_supported(e):
+                    e = strip(e)
+                    if e is None or e.get("k") != "call" or not e.get("a"):
+                        return False
+                    if e.get("fn") == "psVerGetHighestTls":
+                        return is_field(e["a"][0], "ssl", "supportedVersions")
+                    if e.get("fn") == "psVerGetHighest":
+                        # the DTLS arm: highest of (supportedVersions & v_dtls_any), DTLS allowed
+                        a0 = strip(e["a"][0])
+                        return a0 is not None and a0.get("k") == "bin" and a0["op"] == "&" and \
+                            (is_field(a0["l"], "ssl", "supportedVersions") or is_field(a0["r"], "ssl", "supportedVersions")) and \
+                            any((strip(q) or {}).get("k") == "int" and strip(q)["v"] == prog.enums.get("v_dtls_any") for q in (a0["l"], a0["r"]))
+                    return False
+                arg_ok = highest_of_supported(r)
+                if not arg_ok and r is not None and r.get("k") == "var" and r.get("sc") == "l":
+                    # a local: every definition reaching the comparison is such a call
+                    rd3 = cu.reaching_defs(fnx)
+                    idx3 = next((i_ for i_, l_, x_ in cu.block_exprs(b) if x_ is t["c"]), None)
+                    ds3 = cu.defs_at(fnx, rd3, b["id"], idx3, r.get("id"))
+                    arg_ok = bool(ds3) and all(d[3] is not None and highest_of_supported(d[3]) for d in ds3)
+                    dtls_arm = any(d[3] is not None and (strip(d[3]) or {}).get("fn") == "psVerGetHighest" for d in ds3)
+                else:
+                    dtls_arm = False
+                if arg_ok and prog.by_name.get("dtlsChkReplayWindow") and not dtls_arm:
+                    why[0] = "the version compared under the SCSV test (line %s) has no DTLS arm: psVerGetHighestTls() skips the DTLS versions, so for " \
+                           "a DTLS ClientHello the comparison is against `undefined` and an unjustified fallback to DTLS 1.0 is never refused" % t["ln"]
+                    continue
+                if not arg_ok:
+                    why[0] = "the version compared under the SCSV test (line %s) is %s, not psVerGetHighestTls(ssl->supportedVersions): " \
+                           "masked-out versions make a real fallback look justified" % (t["ln"], pp(r)[:70])
+                    continue
+                bad = cu.edge_only_errors(fnx, b, 0)
+                if bad is not None:
+                    why[0] = "the inappropriate-fallback branch (line %s) reaches the non-error return at line %s" % (t["ln"], bad)
+                    continue
+                # the alert is set on that edge
+                sets = False
+                st = [b["succ"][0]["b"]]
+                seen = set()
+                while st:
+                    x_ = st.pop()
+                    if x_ in seen:
+                        continue
+                    seen.add(x_)
+                    for i, ln, x in cu.block_exprs(fnx.bmap[x_]):
+                        for n in walk(x):
+                            if n.get("k") == "bin" and n["op"] == "=" and is_field(n["l"], "ssl", "err") and \
+                                    strip(n["r"]).get("k") == "int" and strip(n["r"])["v"] == ALERT:
+                                sets = True
+                    if not any(el["x"].get("k") == "ret" for el in fnx.bmap[x_]["el"]):
+                        st.extend(cu.succs(fnx, x_))
+                if not sets:
+                    why[0] = "the fallback branch does not set SSL_ALERT_INAPPROPRIATE_FALLBACK"
+                    continue
+                nonlocal_ok[0] = True
+            return nonlocal_ok[0], why[0]
+        ok3, w_ = scan3(pch, gfc, True)
+        if w_:
+            why3 = w_
+        if not ok3:
+            # the test may have been extracted into a helper of the same file, called under the SCSV fact; its error result
+            # must leave parseClientHello on the error edge
+            for b in pch.blocks:
+                if not any(tr and t_.endswith("== %d)" % SCSV) for (t_, tr) in gfc.get(b["id"], ())):
+                    continue
+                for i, ln, x in cu.block_exprs(b):
+                    for m in walk(x):
+                        if m.get("k") != "call" or not m.get("fn"):
+                            continue
+                        tq = prog.resolve_call(pch, m["fn"])
+                        if tq is None or not tq.blocks or tq.relfile != pch.relfile:
+                            continue
+                        okh, wh = scan3(tq, cu.guard_facts(tq), False)
+                        if not okh:
+                            continue
+                        # the caller acts on the helper's error: some two-way branch after the call has an edge that only reaches error returns
+                        t_ = b.get("term")
+                        cv = None
+                        for q in walk(x):
+                            if q.get("k") == "bin" and q["op"] == "=" and strip(q["r"]) is m and (strip(q["l"]) or {}).get("k") == "var":
+                                cv = strip(q["l"]).get("id")
+                        handled = t_ is not None and "c" in t_ and len(b["succ"]) == 2 and any(cu.edge_only_errors(pch, b, k_, callvar=cv) is None for k_ in (0, 1))
+                        if handled:
+                            ok3 = True
+                        else:
+                            why3 = "the result of %s() (line %s) is not acted on" % (tq.name, ln)
     f_ = None
     if not ok3:
         f_ = Finding(PROP, "C07.R3", "parseClientHello", "fallback SCSV handling incomplete", "parseClientHello: " + why3,
